@@ -122,14 +122,20 @@ def run(ctx):
     def proj(m):
         return D.tx_decoded(m) if isinstance(m, D.data_msg.TxMsg) else D.rx_decoded(m)
 
-    for fi in range(nfiles):
+    nbig = ctx.pick(1, 3)            # captures larger than any plausible read-ahead block (64 KiB and more)
+    for fi in range(nfiles + nbig):
+        big = fi >= nfiles
         n = rng.randint(1, 4) if rng.random() < 0.75 else rng.randint(5, 9)
-        small = ctx.tier == "quick" or rng.random() < 0.8
+        if big:
+            n = rng.randint(170, 230)
+        small = (ctx.tier == "quick" or rng.random() < 0.8) and not big
         origs = []
         used = set()
         for k in range(n):
             while True:
                 d = D.rand_tx(rng) if rng.random() < 0.4 else D.rand_rx(rng)
+                if big and not (d["cls"] == "tx" and len(d["burst"]["bits"]) == 444):
+                    continue                    # 453 octets per record: 170+ records exceed 64 KiB
                 if small and d["burst"]["has"] and len(d["burst"]["bits"]) > 148 and rng.random() < 0.85:
                     continue
                 if (d["fn"], d["tn"]) in used:
@@ -142,7 +148,7 @@ def run(ctx):
         starts, lens = [], []
         msgs = [D.mk_tx(d) if d["cls"] == "tx" else D.mk_rx(d) for d in origs]
         live = []          # reads on the writing object between appends: (messages appended so far, event)
-        mode = rng.random()
+        mode = rng.random() if not big else 0.5
         if mode < 0.4:
             for m in msgs:
                 ddf.f.flush()
@@ -157,22 +163,41 @@ def run(ctx):
                 starts.append(pos)
                 pos += 3 + len(m.gen_msg())
         else:
-            # histories that interleave appends and reads on the same object
+            # histories that interleave appends and reads on the same object; the capture is given as
+            # a path or as a file object the caller opened (the constructor takes both)
+            fileobj = rng.random() < 0.4
+            if fileobj:
+                del ddf
+                ddf = data_dump.DATADumpFile(open(path, "w+b"))
             pos = 0
-            for k, m in enumerate(msgs):
-                starts.append(pos)
-                pos += 3 + len(m.gen_msg())
+            k = 0
+            while k < len(msgs):
                 if k >= 2 and rng.random() < 0.3:
                     # another tool run: a new object on the capture that already has content
                     ddf.f.flush()
                     del ddf
-                    ddf = data_dump.DATADumpFile(path)
-                ddf.append_msg(m)
+                    ddf = data_dump.DATADumpFile(open(path, "r+b") if fileobj else path)
+                nb = rng.randint(2, 3) if (rng.random() < 0.3 and k + 2 <= len(msgs)) else 1
+                batch = msgs[k:k + nb]
+                for m in batch:
+                    starts.append(pos)
+                    pos += 3 + len(m.gen_msg())
+                if nb == 1:
+                    ddf.append_msg(batch[0])
+                else:
+                    # one append_all() over an iterable that itself reads the capture between two items
+                    def feeding(batch=batch, k=k):
+                        for j, m in enumerate(batch):
+                            if k + j > 0:
+                                _raw_read(ddf, "idx", rng.randrange(k + j), None)
+                            yield m
+                    ddf.append_all(feeding())
+                k += nb
                 for _ in range(rng.randint(0, 3)):
                     kind = rng.choice(["all", "all", "idx"])
-                    a = rng.choice([None] + list(range(k + 3))) if kind == "all" else rng.randrange(k + 2)
-                    b = rng.choice([None] + list(range(1, k + 3))) if kind == "all" else None
-                    live.append((k + 1, kind, a, b, _raw_read(ddf, kind, a, b)))
+                    a = rng.choice([None] + list(range(k + 2))) if kind == "all" else rng.randrange(k + 1)
+                    b = rng.choice([None] + list(range(1, k + 2))) if kind == "all" else None
+                    live.append((k, kind, a, b, _raw_read(ddf, kind, a, b)))
             ddf.f.flush()
         data = open(path, "rb").read()
         for k in range(n):
@@ -234,6 +259,8 @@ def run(ctx):
             ev.insert(len(ev) - 1, e)         # before the "full" event: judged by the statement clauses first
             ctx.count()
         cuts = range(len(data) + 1)
+        if big:     # a few cuts only: the complete file, the last record cut, a cut behind the first 64 KiB
+            cuts = sorted({len(data), len(data) - 1, starts[-1] + 2, starts[-1], starts[150] + 7})
         boundary = set()
         for s, ln in zip(starts, lens):
             boundary.update([s, s + 1, s + 2, s + 3, s + 4, s + 3 + ln - 1, s + 3 + ln])
@@ -243,11 +270,15 @@ def run(ctx):
                 f.write(data[:cut])
             rd = data_dump.DATADumpFile(p2)
             reads = [("all", None, None)]
-            if cut in boundary:
+            if big:
+                reads += [("all", sk, c) for sk, c in [(0, 1), (3, 5), (None, 10), (100, 3), (140, 2), (148, 30), (160, None), (n - 2, 5), (5, 150)]]
+                reads += [("idx", i, None) for i in (0, 1, 144, 145, 150, n - 1, n)]
+            elif cut in boundary:
                 reads += [("all", s, c) for s in [None] + list(range(n + 2)) for c in [None] + list(range(1, n + 2))]
             else:
                 reads += [("all", rng.choice([None] + list(range(n + 2))), rng.choice([None] + list(range(1, n + 2)))) for _ in range(2)]
-            reads += [("idx", i, None) for i in range(n + 1)]
+            if not big:
+                reads += [("idx", i, None) for i in range(n + 1)]
             if rng.random() < 0.7:
                 rng.shuffle(reads)          # the reader object is reused: no read may depend on what was read before
             for kind, a, b in reads:
